@@ -416,7 +416,13 @@ pub fn c05(a: &Args) {
             extra_cases.push(json!({"docs": docs, "expect": {"st": "ok"}}));
         }
     }
-    for (ci, c) in cases.iter().chain(extra_cases.iter()).enumerate() {
+    // with --reverse the inputs are processed in the opposite order (digests are still written in input order): state
+    // that leaks from one rendering into the next shows as a digest that differs between two processes
+    let reverse = a.num("reverse", 0) == 1;
+    let all: Vec<(usize, &Value)> = cases.iter().chain(extra_cases.iter()).enumerate().collect();
+    let order: Vec<(usize, &Value)> = if reverse { all.into_iter().rev().collect() } else { all };
+    let mut digest_at: Vec<(usize, String)> = Vec::new();
+    for (ci, c) in order {
         if (ci < cases.len() && ci % stride != 0) || c["expect"]["st"] != "ok" {
             continue;
         }
@@ -428,7 +434,7 @@ pub fn c05(a: &Args) {
         sessions += 1;
         let (base, _) = run_session(&docs, Feed::Whole);
         let base_text = final_text(&base);
-        digests.push(format!("{:016x}", fnv(&base_text)));
+        digest_at.push((ci, format!("{:016x}", fnv(&base_text))));
         let mut differing: Option<(String, String)> = None;
         for _ in 0..reps {
             let (f, _) = run_session(&docs, Feed::Whole);
@@ -460,6 +466,8 @@ pub fn c05(a: &Args) {
                                    "first": base_text, "other": other}));
         }
     }
+    digest_at.sort();
+    digests.extend(digest_at.into_iter().map(|x| x.1));
     if let Some(p) = a.get("digests") {
         std::fs::write(p, digests.join("\n")).expect("write digests");
     }
